@@ -75,7 +75,7 @@ Verdict(c) ==
       c11 == (IF revisit THEN <<"V:C11.revisit">> ELSE <<>>)
              \o (IF c.nsteps > 2 * size0 * size0 + 10 \/ c.capped THEN <<"V:C11.step_bound">> ELSE <<>>)
              \o (IF ~c.capped /\ ~NoRuleApplies(fs[k]) THEN <<"V:C11.not_rule_free">> ELSE <<>>)
-             \o (IF c.warn /\ size0 <= 20 /\ c.budget >= 1000 THEN <<"V:C11.warning_small_input">> ELSE <<>>)
+             \o (IF c.warn /\ size0 <= 20 /\ c.own_budget THEN <<"V:C11.warning_small_input">> ELSE <<>>)
              \o (IF ~c.capped /\ ~fs[k].red THEN <<"V:C11.not_flagged">> ELSE <<>>)
       \* NF pass and end to end
       nfj  == PairJudge(fs[k], c.nf, pts)
